@@ -3,11 +3,15 @@
    Model: Model/CodeData.v normalize, tied to code_data/_normalize.py by the correspondence run.
    Proved here: idempotence, stability under every history of JSON round trips and normalizations (any
    length), and canonicity: the normal form of decoded data is a function of CPython's reading of the
-   code alone.  Stability under the code round trip (to_code / from_code of NORMALIZED data) needs the
-   encoder-correctness theorem of C03 and is decided by the history oracle of the check. *)
+   code alone.  Stability under the code round trip (to_code / from_code of NORMALIZED data):
+   C06_normal_form_stable_under_the_code_roundtrip (Proofs/CodeRoundTrip*.v, composing C02, C03, the
+   re-decode theorem and canonicity).  Mixed histories (code and JSON round trips interleaved) follow by
+   alternating that theorem with C06_history_stable; the history oracle of the check runs them. *)
 From PCD Require Import Base.PyBase Base.Cfg Model.Data Model.Consts Model.Blocks Model.CodeData Model.Json
   Spec.Lnotab Spec.Dis Model.ViewSer Proofs.C02_Statements Proofs.C07_Statements Proofs.C06_Statements
-  Proofs.JsonProofs Proofs.NormalizeProofs.
+  Proofs.JsonProofs Proofs.NormalizeProofs Model.Flags Proofs.C01_Statements Proofs.NormalFormWf
+  Proofs.C06b_Statements Proofs.CodeRoundTrip.
+From PCD Require Gen.Cfg37 Gen.Cfg38 Gen.Cfg39 Gen.Cfg310.
 
 Theorem C06_normalize_idempotent : forall d, normalize (normalize d) = normalize d.
 Proof. exact nz_idempotent. Qed.
@@ -57,3 +61,31 @@ Theorem C06_canonical : forall c code1 ks1 d1 code2 ks2 d2,
   normalize d1 = normalize d2.
 Proof. exact canonical. Qed.
 Print Assumptions C06_canonical.
+
+(* code (in the decoder's domain) -> decode -> normalize -> to_code -> from_code -> normalize gives data
+   equal (the library's ==) to the first normal form, for every configuration whose flag table is
+   well-formed and names CO_NOFREE (cfg_flags_ok; true of the four generated configurations, below).
+   kst is the constants table of the emitted code with the library-level constant each entry encodes.
+   The statement for ALL configurations is false (CodeRoundTrip.C06_code_roundtrip_needs_cfg_flags_ok:
+   a flag table naming GENERATOR twice breaks it), hence the premise. *)
+Theorem C06_normal_form_stable_under_the_code_roundtrip : forall c code ks d d' code',
+  cfg_flags_ok c = true ->
+  view_wf c code ks && ops_known c (co_code code) = true -> co_code code <> [] ->
+  zlen (co_freevars code) < 1073741824 -> zlen (co_varnames code) < 1073741824 ->
+  nodup_str (co_freevars code) = true ->
+  (0 <=? cfg_extended_arg c) && (cfg_extended_arg c <? 256) = true ->
+  decode_code c code ks = OK d ->
+  mapM_cd (fun k' => match from_const c k' with OK p => OK (k', p) | Err e => Err e end) (normalize d) = OK d' ->
+  encode_code c d' = OK code' ->
+  zlen (co_code code') < 1073741824 ->
+  exists kst : list pconst,
+    map snd kst = co_consts code' /\
+    forall d2, decode_code c code' (map fst kst) = OK d2 ->
+      cd_eqb (normalize d2) (normalize d) = true.
+Proof. exact C06_code_roundtrip_cfg. Qed.
+Print Assumptions C06_normal_form_stable_under_the_code_roundtrip.
+
+Example C06_generated_configurations_have_well_formed_flag_tables :
+  cfg_flags_ok Cfg37.cfg = true /\ cfg_flags_ok Cfg38.cfg = true /\
+  cfg_flags_ok Cfg39.cfg = true /\ cfg_flags_ok Cfg310.cfg = true.
+Proof. exact generated_cfgs_flags_ok. Qed.
